@@ -708,6 +708,41 @@ def run_case(case, R):
     elif k in ('xb13', 'xb23'): case_xb(R, I, case)
     elif k == 'reg': case_reg(R, I, float(case['t']), float(case['p']))
     else: raise HarnessError('unknown case kind %r' % k)
+    purity(R, I, case)
+
+
+def _same(a, b):
+    if isinstance(a, tuple) or isinstance(b, tuple):
+        return isinstance(a, tuple) and isinstance(b, tuple) and len(a) == len(b) and all(_same(x, y) for x, y in zip(a, b))
+    if a is None or b is None: return a is None and b is None
+    return float(a) == float(b) or (float(a) != float(a) and float(b) != float(b))
+
+
+def purity(R, I, case):
+    """Call history: the same state evaluated again after a call at a different state gives the same answer
+    (a result that depends on what was asked before - a cache keyed on too little - is exposed)."""
+    k = case['k']
+    calls = []
+    if k in ('r1', 'r2'):
+        t, p = float(case['t']), float(case['p'])
+        f = I.cowat if k == 'r1' else I.supst
+        calls = [(f, (t, p), (t * 0.97 + 1.0, p * 1.03)), (I.region, (t, p), (t + 40.0, p * 0.5))]
+    elif k == 'r3':
+        d, t = float(case['d']), float(case['t'])
+        calls = [(I.super, (d, t), (d * 1.1, t + 3.0)), (I.visc, (d, t), (d * 0.9 + 1.0, t + 5.0))]
+    elif k == 'sat': calls = [(I.sat, (float(case['t']),), (float(case['t']) * 0.5 + 1.0,))]
+    elif k == 'tsat': calls = [(I.tsat, (float(case['p']),), (float(case['p']) * 0.7,))]
+    elif k == 'b23p': calls = [(I.b23p, (float(case['t']),), (float(case['t']) - 11.0,))]
+    elif k == 'b23t': calls = [(I.b23t, (float(case['p']),), (float(case['p']) * 1.05,))]
+    for f, args, other in calls:
+        try:
+            a = f(*args)
+            try: f(*other)
+            except Exception: pass
+            b = f(*args)
+        except Exception:
+            continue        # exceptions are judged by the main oracle
+        R.check(_same(a, b), 'purity:' + f.__name__, '%s%r = %r, and %r when asked again after %s%r' % (f.__name__, args, a, b, f.__name__, other))
 
 
 def finish(tier, seed, total):
